@@ -1,5 +1,5 @@
 \* partial-order reduced (Eager), loop inside a scatter: 2 instances x counts 0..3, two outputs
-CONSTANTS NI = 2  Counts = {0, 1, 2, 3}  Outs = {"o1", "o2"}  Scatter = TRUE  Eager = TRUE
+CONSTANTS NI = 2  Counts = {0, 1, 2, 3}  Outs = {"o1", "o2"}  Scatter = TRUE  IdxSet = {0, 1}  Eager = TRUE
 INIT Init
 NEXT Next
 VIEW View
@@ -9,3 +9,4 @@ INVARIANT I2
 INVARIANT I3
 INVARIANT TermLast
 INVARIANT CounterOK
+INVARIANT ChkOK
